@@ -166,7 +166,11 @@ Lemma cv_files_total bd fs :
 Proof.
   induction fs as [|x r IH]; intros H; cbn [J5sConvert.cv_files]; [eexists; reflexivity|].
   destruct x as [j|p].
-  - destruct (cv_file_total bd j (H j (or_introl eq_refl))) as [a Ha]. rewrite Ha. cbn [obind].
+  - assert (Hl : file_lists_ok j = true).
+    { pose proof (H j (or_introl eq_refl)) as Hv. unfold valid_file in Hv.
+      apply andb_true_iff in Hv. destruct Hv as [Hv _]. apply andb_true_iff in Hv. exact (proj2 Hv). }
+    rewrite Hl.
+    destruct (cv_file_total bd j (H j (or_introl eq_refl))) as [a Ha]. rewrite Ha. cbn [obind].
     destruct IH as [c Hc]; [intros f Hf; apply H; right; exact Hf|]. rewrite Hc. cbn [obind]. eexists; reflexivity.
   - apply IH. intros f Hf. apply H. right. exact Hf.
 Qed.
